@@ -78,7 +78,7 @@ Catalogue == {
   F("separation", "silent-reference", SepFns, VE), F("separation", "silent-estimate", SepFns, VE),
   F("separation", "too-many-sources", SepFns, VE) }
 
-ValidShapes(task) ==
+ValidShapes0(task) ==
   CASE task \in {"beat", "onset"} -> {"random", "identical", "empty_est", "empty_ref", "both_empty", "single", "duplicates", "disjoint", "clustered"}
     [] task = "segment" -> {"random", "identical", "empty_est", "single", "duplicates", "disjoint", "est-starts-later", "est-ends-later",
                             "est-ends-earlier", "boundary-at-ref-end", "one-frame"}
@@ -94,6 +94,9 @@ ValidShapes(task) ==
     [] task = "pattern" -> {"random", "identical", "duplicates", "unison", "empty_est", "empty_ref", "both_empty"}
     [] task = "hierarchy" -> {"random", "identical", "single", "window-equals-frame-size", "one-frame"}
     [] task = "alignment" -> {"random", "identical", "duplicates", "duration-equals-last-timestamp"}
+(* "repository-fixture": a reference/estimate pair of the repository's own annotation fixtures (tests/data/<task>): *)
+(* a real annotation of real-world size; valid for every task                                                      *)
+ValidShapes(task) == {"repository-fixture"} \cup ValidShapes0(task)
 Tasks == {"beat", "onset", "segment", "chord", "melody", "multipitch", "transcription", "transcription_velocity", "tempo", "key",
           "pattern", "hierarchy", "alignment"}
 =============================================================================
